@@ -321,7 +321,7 @@ Print Assumptions C03_sprog_embeds.
    run) has a pair that is
      - delegating (shape checked by the extractor) with a position-relative SR decoder: C03_delegating_pair_agree applies; or
        delegating and named: DecodeVisualSampleEntry (C03_vse_pair_agree_canonical) / the explored list
-       c03_delegating_nonrelative_explored = emsg esds evte meta sgpd stpp trep wvtt;
+       c03_delegating_nonrelative_explored = esds evte meta sgpd stpp trep wvtt;
      - a container twin (same text around DecodeContainerChildren / ...SR; KCont of C03_decode_agree_canonical), or one whose SR
        decoder also returns sr.AccError(): named, c03_twin_accerr_explored = edts sinf stbl;
      - moov / moof: the reader path reads the body and runs the text of the SR decoder on it, KContBody with the extracted flag;
